@@ -56,6 +56,39 @@ pub struct Setup {
     pub interp: String,
     pub id: String,
     pub index_base: Option<Fx>,
+    /// index into CONVENTIONS / MODIFIERS (irrelevant to look-ups; matters for save/load)
+    #[serde(default)]
+    pub convention: u8,
+    #[serde(default)]
+    pub modifier: u8,
+}
+
+pub fn convention_of(i: u8) -> Convention {
+    const C: [Convention; 11] = [
+        Convention::Act360,
+        Convention::One,
+        Convention::OnePlus,
+        Convention::Act365F,
+        Convention::Act365FPlus,
+        Convention::ThirtyE360,
+        Convention::Thirty360,
+        Convention::Thirty360ISDA,
+        Convention::ActActISDA,
+        Convention::ActActICMA,
+        Convention::Bus252,
+    ];
+    C[(i as usize) % C.len()]
+}
+
+pub fn modifier_of(i: u8) -> Modifier {
+    const M: [Modifier; 5] = [
+        Modifier::ModF,
+        Modifier::Act,
+        Modifier::F,
+        Modifier::P,
+        Modifier::ModP,
+    ];
+    M[(i as usize) % M.len()]
 }
 
 #[derive(Clone, Debug, Serialize, Deserialize, PartialEq)]
@@ -79,12 +112,13 @@ pub struct Plan {
 const DAY: i64 = 86_400;
 
 pub fn generate(rng: &mut Rng, tier: Tier) -> Plan {
-    let n = if rng.chance(0.4) {
-        rng.usize_in(2, 3)
-    } else {
-        rng.usize_in(2, 8)
+    let n = match rng.below(20) {
+        0..=7 => rng.usize_in(2, 3),
+        8..=17 => rng.usize_in(2, 8),
+        _ => rng.usize_in(9, 20),
     };
     let interp = rng.pick(INTERPS).to_string();
+    let intraday = rng.chance(0.15);
     // distinct midnight dates between 2000 and 2060 with arbitrary gaps
     let start_day = rng.i64_in(10957, 10957 + 3650);
     let mut days = vec![start_day];
@@ -126,18 +160,23 @@ pub fn generate(rng: &mut Rng, tier: Tier) -> Plan {
             rng.log_uniform(0.05, 20.0)
         };
         nodes.push(NodeSpec {
-            ts: d * DAY,
+            ts: d * DAY + if intraday { rng.i64_in(0, DAY - 1) } else { 0 },
             num: gen_num(rng, kind, v, 2, prefix),
         });
     }
+    nodes.sort_by_key(|n| n.ts);
+    nodes.dedup_by_key(|n| n.ts);
+    let n = nodes.len();
     // queries: node dates, midpoints, two interior points per interval, before and after
     let mut queries: Vec<i64> = Vec::new();
     for w in nodes.windows(2) {
         let (a, b) = (w[0].ts, w[1].ts);
         queries.push(a);
         queries.push(a + (b - a) / 2);
-        queries.push(a + 1 + rng.below((b - a - 1) as u64) as i64);
-        queries.push(a + 1 + rng.below((b - a - 1) as u64) as i64);
+        if b - a >= 2 {
+            queries.push(a + 1 + rng.below((b - a - 1) as u64) as i64);
+            queries.push(a + 1 + rng.below((b - a - 1) as u64) as i64);
+        }
     }
     queries.push(nodes[n - 1].ts);
     let g0 = nodes[1].ts - nodes[0].ts;
@@ -176,6 +215,8 @@ pub fn generate(rng: &mut Rng, tier: Tier) -> Plan {
             interp,
             id,
             index_base,
+            convention: rng.below(11) as u8,
+            modifier: rng.below(5) as u8,
         },
         history: History::Exhaustive { depth },
         queries,
@@ -328,8 +369,8 @@ pub fn build_with_cal(setup: &Setup, pycal: Option<CalType>) -> Result<Sut, Fail
                     &setup.interp,
                     order_of(*ad),
                     &setup.id,
-                    Convention::Act360,
-                    Modifier::ModF,
+                    convention_of(setup.convention),
+                    modifier_of(setup.modifier),
                     cal,
                     setup.index_base.map(|b| b.get()),
                 )
@@ -382,8 +423,8 @@ pub fn build_with_cal(setup: &Setup, pycal: Option<CalType>) -> Result<Sut, Fail
                             nodes,
                             $I::new(),
                             &setup.id,
-                            Convention::Act360,
-                            Modifier::ModF,
+                            convention_of(setup.convention),
+                            modifier_of(setup.modifier),
                             ib,
                             cal,
                         )
